@@ -69,8 +69,15 @@ func runHarness(prog *Program, spec HarnessSpec, tier int, seed int64, workers i
 	to := spec.Quick
 	if tier == 1 {
 		to = spec.Thorough
-		if to.MaxPaths == 0 && to.TimeoutS == 0 {
-			to = spec.Quick
+		if to.LoopLimit == 0 {
+			to.LoopLimit = spec.Quick.LoopLimit
+		}
+	}
+	if to.TimeoutS == 0 {
+		// default time budgets per harness; exhausting one is reported as INCONCLUSIVE
+		to.TimeoutS = 240
+		if tier == 1 {
+			to.TimeoutS = 1500
 		}
 	}
 	opts := ExploreOpts{Workers: workers, MaxPaths: to.MaxPaths, SolverBin: "z3", SolverTimeout: 10000,
